@@ -293,7 +293,7 @@ class _Unroller(ast.NodeTransformer):
         return node
 
 
-def normalise_module(tree: ast.Module, exported=()):
+def normalise_module(tree: ast.Module, exported=(), unroll=True):
     """inline unknown private helpers of this module into their callers (in place on a deep copy); returns (new tree, info)"""
     tree = copy.deepcopy(tree)
     info = {"helpers_inlined": [], "call_sites": 0}
@@ -307,9 +307,11 @@ def normalise_module(tree: ast.Module, exported=()):
             break
         info["call_sites"] += inl.count
         info["helpers_inlined"] = sorted(set(info["helpers_inlined"]) | inl.used)
-    un = _Unroller()
-    un.visit(tree)
-    info["loops_unrolled"] = un.count
+    info["loops_unrolled"] = 0
+    if unroll:
+        un = _Unroller()
+        un.visit(tree)
+        info["loops_unrolled"] = un.count
     if un.count:
         info["call_sites"] += 0
     ast.fix_missing_locations(tree)
